@@ -7,8 +7,8 @@ import (
 	"path/filepath"
 	"strings"
 
-	acrakeys "github.com/cossacklabs/acra/cmd/acra-keys/keys"
 	"fmt"
+	acrakeys "github.com/cossacklabs/acra/cmd/acra-keys/keys"
 	"testing"
 	"time"
 
@@ -49,7 +49,8 @@ func (C18) Explore(x *kernel.Explorer, seed uint64) {
 		plan := &kernel.Plan{Prop: "C18", Seed: kernel.Mix(seed, uint64(i)), Swarm: map[string]int64{
 			"format": int64(format), "cache": -1, "mode": mode, "select": sel,
 			"nonempty": int64(r.Intn(2)), "pubdir": int64(r.Intn(3) / 2),
-			"selmask":  int64(r.Intn(1 << 12)),
+			"selmask": int64(r.Intn(1 << 12)),
+			"migrate": int64(r.Intn(4) / 3),
 		}}
 		id := 0
 		n := 2 + r.Intn(10)
@@ -163,6 +164,12 @@ func (C18) Run(t *testing.T, plan *kernel.Plan, keepLog bool) *kernel.Result {
 		}
 		if s.modelEmpty() {
 			w.Res.Trivial = true
+			return
+		}
+		if plan.Sw("migrate") == 1 && format == 1 {
+			c18Migrate(w, s, model, rng)
+			w.State("v1->v2 migration")
+			w.Res.SimNanos = int64(time.Since(start))
 			return
 		}
 		tgt := NewDisk(format, rng)
@@ -399,11 +406,11 @@ type c18FileParams struct {
 	data, keys string
 }
 
-func (p c18FileParams) ExportKeysFile() string          { return p.keys }
-func (p c18FileParams) ExportDataFile() string          { return p.data }
-func (p c18FileParams) ExportIDs() []keystore.ExportID   { return nil }
-func (p c18FileParams) ExportAll() bool                  { return false }
-func (p c18FileParams) ExportPrivate() bool              { return false }
+func (p c18FileParams) ExportKeysFile() string         { return p.keys }
+func (p c18FileParams) ExportDataFile() string         { return p.data }
+func (p c18FileParams) ExportIDs() []keystore.ExportID { return nil }
+func (p c18FileParams) ExportAll() bool                { return false }
+func (p c18FileParams) ExportPrivate() bool            { return false }
 
 // c18ThroughFiles writes an older, larger bundle and then this bundle into the
 // same two files with the command's own writer and reads them back.
@@ -466,4 +473,45 @@ func c18Public(h *Handle, r *MRing) ([]byte, error) {
 		return nil, err
 	}
 	return kp.Public.Value, nil
+}
+
+// c18Migrate runs the v1 -> v2 migration (acra-keys migrate: enumerate the exportable keys of the v1 key
+// store, import each into a fresh v2 key store) and compares every current key of the source with the
+// target. Rotated keys are not carried over by the migration and are not compared.
+func c18Migrate(w *kernel.World, s *Session, model *Model, rng *kernel.RNG) {
+	tgt := NewDisk(2, rng)
+	h2, err := Open(w, 0, tgt, 0)
+	if err != nil {
+		w.Violate("C18", "open-succeeds", "migrate/target", err.Error())
+		return
+	}
+	// acra-keys migrate: keys that cannot be imported are skipped and reported at the end ("Incomplete key
+	// import"); files of the history directories are among them. What is asserted is the outcome: every
+	// current key of the source is in the target with the same value.
+	merr, pv := Guard(func() error { return acrakeys.MigrateV1toV2(s.H.V1, h2.V2) })
+	if pv != nil {
+		w.Violate("C18", "no-panic", "migrate/import", fmt.Sprint(pv))
+		return
+	}
+	if merr != nil {
+		w.Probe("migration-reported-incomplete")
+	}
+	for _, id := range model.RingIDs() {
+		r := model.Rings[id]
+		newest := r.Newest()
+		if newest == nil || !newest.Alive {
+			continue
+		}
+		got, gerr := h2.ReadCurrent(r.Kind, []byte(r.Client))
+		site := "migrate/" + shape(r.Kind) + "/" + r.Kind
+		switch {
+		case gerr != nil:
+			w.Violate("C18", "imported-keys-identical", site, fmt.Sprintf("%s: current key of the source is not readable in the migrated key store: %v", id, gerr))
+		case !bytes.Equal(got.Secret, newest.Val.Secret):
+			w.Violate("C18", "imported-keys-identical", site, fmt.Sprintf("%s: current key differs after migration (%d bytes, all zero: %v)", id, len(got.Secret), len(got.Secret) > 0 && bytes.Count(got.Secret, []byte{0}) == len(got.Secret)))
+		case IsPair(r.Kind) && !bytes.Equal(got.Public, newest.Val.Public):
+			w.Violate("C18", "imported-keys-identical", site, fmt.Sprintf("%s: public half differs after migration", id))
+		}
+	}
+	w.Probe("v1-to-v2-migration")
 }
